@@ -70,6 +70,9 @@ def jobs(tier):
     for cls in ("SSIdat", "SSIdat_MS", "pLSCF", "pLSCF_MS"):
         for ordmin in (0, 1, 2):
             out.append({"ob": "O4", "cfg": {"cls": cls, "ordmin": ordmin, "ordmax": 3}})
+    # with covariance tables (uncertainty enabled): labels are computed on the tables that are stored, after ALL hard criteria
+    for cls in ("SSIdat", "SSIcov"):
+        out.append({"ob": "O4", "cfg": {"cls": cls, "ordmin": 0, "ordmax": 3, "cov": True}})
     return out
 
 
@@ -298,7 +301,7 @@ def replay_labels(cfg, inputs):
 def run_wiring(cfg, tier):
     """which tables / range / tolerances reach SC_apply from each run(), and is its result stored as Lab"""
     from props import c09
-    c9 = {"cls": cfg["cls"], "shape": [2, 4], "conj": False, "cov": False}
+    c9 = {"cls": cfg["cls"], "shape": [2, 4], "conj": False, "cov": bool(cfg.get("cov"))}
     rec = {}
     st = {}
     hooks = {"mpc": lambda phi, rc: SV(st["T"]["mpc"][rc[0]][rc[1]], lift(phi[0]).nan),
@@ -322,7 +325,8 @@ def run_wiring(cfg, tier):
         hc = dict(conj=False, xi_max=fresh("xi_max"), mpc_lim=fresh("mpc_lim"), mpd_lim=fresh("mpd_lim"), cov_max=fresh("cov_max"))
         attrs = c09.carrier_attrs(c9, hc)
         attrs["run_params"].ordmin, attrs["run_params"].ordmax = cfg["ordmin"], cfg["ordmax"]
-        attrs["run_params"].sc = dict(err_fn=fresh("efn"), err_xi=fresh("exi"), err_phi=fresh("ephi"))
+        # a user dict in another key order: the tolerances are bound by key, not by position
+        attrs["run_params"].sc = dict(err_phi=fresh("ephi"), err_fn=fresh("efn"), err_xi=fresh("exi"))
         st["sc"] = attrs["run_params"].sc
         alg = W.carrier(c09.get_cls(cfg["cls"]), **attrs)
         return alg.run()
@@ -363,14 +367,18 @@ def replay_wiring(cfg, inputs):
     import pyoma2.functions.plscf as plscf
     import pyoma2.functions.ssi as ssi
     from props import c09
-    c9 = {"cls": cfg["cls"], "shape": [2, 4], "conj": False, "cov": False}
+    cov = bool(cfg.get("cov"))
+    c9 = {"cls": cfg["cls"], "shape": [2, 4], "conj": False, "cov": cov}
     rng = np.random.RandomState(1)
     T = {"Fn": rng.rand(2, 4) + 1, "Xi": rng.rand(2, 4) * 0.01 + 0.01, "Phi": (rng.rand(2, 4, 2) + 0.1).astype(complex),
          "L": rng.rand(2, 4) + 1j, "Fn_cov": None, "Xi_cov": None, "Phi_cov": None}
+    if cov:
+        # half of the poles exceed the covariance limit of 1.0
+        T.update(Fn_cov=np.where(np.arange(8).reshape(2, 4) % 2 == 0, 0.5, 2.0), Xi_cov=rng.rand(2, 4), Phi_cov=rng.rand(2, 4, 2))
     rec = {}
 
     def sc_apply(Fn, Xi, Phi, ordmin, ordmax, step, e1, e2, e3):
-        rec.update(ordmin=ordmin, ordmax=ordmax, step=step, errs=(e1, e2, e3))
+        rec.update(ordmin=ordmin, ordmax=ordmax, step=step, errs=(e1, e2, e3), Fn=np.array(Fn, dtype=float))
         return np.zeros(Fn.shape, dtype=int)
     stubs = c09.make_world(T, c9, {"mpc": lambda p, rc: np.float64(1.0), "mpd": lambda p, rc: np.float64(0.0)})
     stubs["pyoma2.functions.gen"]["SC_apply"] = sc_apply
@@ -384,12 +392,12 @@ def replay_wiring(cfg, inputs):
         hc = dict(conj=False, xi_max=1.0, mpc_lim=0.0, mpd_lim=2.0, cov_max=1.0)
         attrs = c09.carrier_attrs(c9, hc)
         attrs["run_params"].ordmin, attrs["run_params"].ordmax = cfg["ordmin"], cfg["ordmax"]
-        attrs["run_params"].sc = dict(err_fn=0.011, err_xi=0.052, err_phi=0.033)
+        attrs["run_params"].sc = dict(err_phi=0.033, err_fn=0.011, err_xi=0.052)
         alg = object.__new__(c09.get_cls(cfg["cls"]))
         for k, v in attrs.items():
             setattr(alg, k, v)
         try:
-            alg.run()
+            res = alg.run()
         except Exception as e:  # noqa: BLE001
             return True, f"run raised {type(e).__name__}: {e}", f"{cfg['cls']}.run:raises"
     finally:
@@ -403,7 +411,11 @@ def replay_wiring(cfg, inputs):
         return True, (f"{cfg['cls']}.run with ordmin={cfg['ordmin']}, ordmax={cfg['ordmax']} scans columns {got_cols}; model orders "
                       f"[{cfg['ordmin']},{cfg['ordmax']}] minus the first are columns {want_cols}"), f"{cfg['cls']}.run:label-range"
     if tuple(rec["errs"]) != (0.011, 0.052, 0.033):
-        return True, f"tolerances reached SC_apply as {rec['errs']}", f"{cfg['cls']}.run:tolerances"
+        return True, (f"tolerances reached SC_apply as {rec['errs']} for sc = dict(err_phi=0.033, err_fn=0.011, err_xi=0.052): bound by position, "
+                      f"not by key"), f"{cfg['cls']}.run:tolerances"
+    if not np.array_equal(np.isnan(rec["Fn"]), np.isnan(np.asarray(res.Fn_poles, dtype=float))):
+        return True, ("the stability labels were computed on tables that are not the stored ones (a hard criterion is applied after "
+                      "labelling: NaN poles keep their label)"), f"{cfg['cls']}.run:labels-before-last-filter"
     return False, "wiring as specified", None
 
 
